@@ -1,24 +1,25 @@
 #!/bin/sh
 # tools/seedimport.sh C08 1 : verify a sub-agent's seeded change in its scratch worktree and keep it under /verif/seeded/
-p="$1"; k="$2"; wt=/tmp/wt/$p; sd=$wt/_seed/$k; dst=/verif/seeded/$p-$k
+# usage: seedimport.sh C08 1 [worktree-base (default /tmp/wt)] [number to store it under (default: same)]
+p="$1"; k="$2"; base="${3:-/tmp/wt}"; dk="${4:-$k}"; wt=$base/$p; sd=$wt/_seed/$k; dst=/verif/seeded/$p-$dk
 export GOPROXY=off GOSUMDB=off GOTOOLCHAIN=local; unset GOFLAGS
 [ -f "$sd/patch.diff" ] || { echo "$p-$k: no patch"; exit 2; }
 cd "$wt" || exit 2
 git checkout -q -- . 2>/dev/null
 git apply "$sd/patch.diff" || { echo "$p-$k: patch does not apply"; exit 1; }
 go build ./... || { echo "$p-$k: does not build"; git checkout -q -- .; exit 1; }
-base=$(VERIF_REPO=$wt /verif/tools/baseline.sh); bcode=$?
+bl=$(VERIF_REPO=$wt /verif/tools/baseline.sh); bcode=$?
 sh "$sd/demo.sh" >"$sd/demo.with.log" 2>&1; dwith=$?
 git checkout -q -- .
 # remove test files a demo may have copied in
 git clean -qfd -e _seed >/dev/null 2>&1
 sh "$sd/demo.sh" >"$sd/demo.without.log" 2>&1; dwithout=$?
 git checkout -q -- .; git clean -qfd -e _seed >/dev/null 2>&1
-echo "$p-$k: $base (code $bcode) demo_with_change=$dwith demo_without=$dwithout"
+echo "$p-$dk: $bl (code $bcode) demo_with_change=$dwith demo_without=$dwithout"
 if [ $bcode -eq 0 ] && [ $dwith -ne 0 ] && [ $dwithout -eq 0 ]; then
   mkdir -p "$dst"
   cp "$sd"/* "$dst"/ 2>/dev/null
-  python3 - "$p" "$k" "$dst" "$base" "$dwith" "$dwithout" <<'PY'
+  python3 - "$p" "$dk" "$dst" "$bl" "$dwith" "$dwithout" <<'PY'
 import json,sys,re
 p,k,dst,base,dw,dwo=sys.argv[1:]
 notes=open(dst+'/notes.md').read() if __import__('os').path.exists(dst+'/notes.md') else ''
@@ -27,7 +28,7 @@ json.dump({"properties":[p],"origin":"fresh sub-agent given only the property te
  "needs_to_manifest":"see notes.md","verified":{"applies":True,"builds":True,"baseline":base,"demo_exit_with_change":int(dw),"demo_exit_without_change":int(dwo),
  "how":"tools/seedimport.sh: git apply in the scratch worktree, go build ./..., tools/baseline.sh (236 tests), sh demo.sh with and without the change"}},open(dst+'/meta.json','w'),indent=1)
 PY
-  echo "$p-$k: KEPT in $dst"
+  echo "$p-$dk: KEPT in $dst"
 else
-  echo "$p-$k: REJECTED"
+  echo "$p-$dk: REJECTED (from $sd)"
 fi
